@@ -73,12 +73,17 @@ func (t *jtracer) logUngated(e jev) {
 	}
 }
 
-func (t *jtracer) waitFor(key string) {
+func (t *jtracer) waitFor(keys ...string) {
 	t.mu.Lock()
-	for t.counts[key] == 0 {
+	for {
+		for _, k := range keys {
+			if t.counts[k] > 0 {
+				t.mu.Unlock()
+				return
+			}
+		}
 		t.cond.Wait()
 	}
-	t.mu.Unlock()
 }
 
 func jerrClass(b any) string {
@@ -134,7 +139,8 @@ func (t *jtracer) hook(point string, a, b any) {
 	case "sub.s1.sent":
 		t.waitFor("loop.sub:" + t.get(t.subs, a))
 	case "sub.s3.sent":
-		t.waitFor("loop.unsub:" + t.get(t.subs, a))
+		// (an implementation whose send is not a rendezvous may never get to receive it: Joe's exit ends the wait)
+		t.waitFor("loop.unsub:"+t.get(t.subs, a), "loop.exit")
 	case "sub.s1.closed", "sub.s2.ctx", "loop.sub", "loop.register":
 		t.log(jev{"e": point, "s": t.get(t.subs, a)})
 	case "sub.s2.done", "sub.s3.done", "sub.s4.done", "loop.subfail", "loop.fail":
